@@ -138,6 +138,8 @@ pub fn run(tier: Tier) -> i32 {
     for &n in ns {
         for l in [0u8, 1, 2, 3] {
             growth.push(FileSpec::new(FileCfg::layout(Some(1024), None, l), EntrySpec::Uniform { n, klen: 8, vlen: 100, wide: true }));
+            // an in-block interval far above the default: a single offset slot per block
+            growth.push(FileSpec::new(FileCfg::layout(None, Some(1000), l), EntrySpec::Uniform { n, klen: 8, vlen: 20, wide: true }));
             if n <= 5000 {
                 growth.push(FileSpec::new(FileCfg::layout(Some(1024), Some(1), l), EntrySpec::Uniform { n, klen: 300, vlen: 1, wide: true }));
             }
